@@ -5,6 +5,7 @@ package main
 // registration).
 
 import (
+	"fmt"
 	"strings"
 
 	"golang.org/x/tools/go/ssa"
@@ -223,4 +224,52 @@ func (in *Interp) callBody(caller *frame, fn *ssa.Function, args []Value) Value 
 		}
 	}()
 	return in.callSSA(caller, 0, fn, args, nil)
+}
+
+// ---- cryptography as uninterpreted functions
+func init() {
+	intrinsics["golang.org/x/crypto/sha3.Sum256"] = func(in *Interp, fr *frame, fn *ssa.Function, a []Value) Value {
+		return in.hashUF("sha3", sliceOf(in, a[0]), 32)
+	}
+	intrinsics["crypto/sha256.Sum256"] = func(in *Interp, fr *frame, fn *ssa.Function, a []Value) Value {
+		return in.hashUF("sha256", sliceOf(in, a[0]), 32)
+	}
+	intrinsics["crypto/ed25519.Verify"] = func(in *Interp, fr *frame, fn *ssa.Function, a []Value) Value {
+		pk, msg, sig := sliceOf(in, a[0]), sliceOf(in, a[1]), sliceOf(in, a[2])
+		if len(pk) != 32 {
+			panic(targetPanic{in.makeError("ed25519: bad public key length")})
+		}
+		if len(sig) != 64 {
+			return in.tt.False
+		}
+		cat := func(bs SliceV) *Term {
+			if len(bs) == 0 {
+				return in.tt.BVU(0, 8)
+			}
+			acc := bs[0].(*Term)
+			for _, b := range bs[1:] {
+				acc = in.tt.Concat(acc, b.(*Term))
+			}
+			return acc
+		}
+		return in.tt.App(fmt.Sprintf("ed25519_verify_%d", len(msg)), BoolSort, cat(pk), cat(msg), cat(sig))
+	}
+}
+
+// common.BigIntToBytes: 32-byte big-endian form.  For 0 <= x < 2^256 (one decision) the bytes are taken from
+// int2bv directly instead of forking over the minimal byte length in big.Int.Bytes().
+func init() {
+	intrinsics[modulePath+"/common.BigIntToBytes"] = func(in *Interp, fr *frame, fn *ssa.Function, a []Value) Value {
+		p, ok := a[0].(*Value)
+		if ok && p != nil {
+			if b, isB := (*p).(BigV); isB && !b.T.IsConst() {
+				tt := in.tt
+				inRange := tt.And(tt.ILe(tt.IntI(0), b.T), tt.ILt(b.T, tt.IntConst(pow2(256))))
+				if in.truth(inRange) {
+					return in.natToBytes(b.T, 32)
+				}
+			}
+		}
+		return in.callBody(fr, fn, a)
+	}
 }
